@@ -1005,6 +1005,129 @@ def _(e):
     return "tucker_als", ttb.tucker_als, (X, 2), {"printitn": 0, "maxiters": 1, "dimorder": [0, 0, 1]}, X, {}
 
 
+# ---- negative / repeated mode arguments, and rejected calls that must leave the receiver as it was --------------------------------
+@row("tensor.contract:negative-mode", (2, 3))
+def _(e):
+    e.shape = (3,) * e.N
+    X = e.tensor()
+    return "tensor.contract", X.contract, (0, -e.N), {}, X, {}      # -N is mode 0 again: the same mode twice
+
+
+@row("sptensor.contract:negative-mode", (2, 3))
+def _(e):
+    e.shape = (3,) * e.N
+    X = e.sptensor()
+    return "sptensor.contract", X.contract, (0, -e.N), {}, X, {}
+
+
+@row("ktensor.redistribute:negative-mode")
+def _(e):
+    X = e.ktensor()
+    return "ktensor.redistribute", X.redistribute, (-1,), {}, X, {}
+
+
+@row("ktensor.mttkrp:negative-mode", (2, 3))
+def _(e):
+    X = e.ktensor()
+    return "ktensor.mttkrp", X.mttkrp, (e.factors(2), -1), {}, X, {}
+
+
+@row("tensor.mttkrp:negative-mode", (2, 3))
+def _(e):
+    X = e.tensor()
+    return "tensor.mttkrp", X.mttkrp, (e.factors(2), -1), {}, X, {}
+
+
+@row("sptensor.mttkrp:negative-mode", (2, 3))
+def _(e):
+    X = e.sptensor()
+    return "sptensor.mttkrp", X.mttkrp, (e.factors(2), -1), {}, X, {}
+
+
+@row("ktensor.update:negative-mode-other-than-weights", (2, 3))
+def _(e):
+    X = e.ktensor(R=2)
+    return "ktensor.update", X.update, ([-2], gen.normals(e.rng, (2 * e.shape[-2],))), {}, X, {}
+
+
+@row("ktensor.arrange:permutation-with-repeats", (2, 3))
+def _(e):
+    X = e.ktensor(R=2)
+    return "ktensor.arrange", X.arrange, (), {"permutation": np.array([0, 0])}, X, {}
+
+
+@row("sptensor.reshape:negative-old-mode", (2, 3))
+def _(e):
+    X = e.sptensor()
+    return "sptensor.reshape", X.reshape, ((e.shape[-1],), np.array([-1])), {}, X, {}
+
+
+@row("sptensor.reshape:repeated-old-mode", (2, 3))
+def _(e):
+    X = e.sptensor()
+    return "sptensor.reshape", X.reshape, ((e.shape[1] * e.shape[1],), np.array([1, 1])), {}, X, {}
+
+
+@row("tt_dimscheck:repeated-exclude-dims", (2, 3))
+def _(e):
+    return "tt_dimscheck", ttb.pyttb_utils.tt_dimscheck, (e.N,), {"exclude_dims": np.array([0, 0])}, None, {}
+
+
+@row("hosvd:negative-rank", (2, 3))
+def _(e):
+    X = _adata(e)
+    r = [1] * e.N
+    r[int(e.rng.integers(0, e.N))] = -1
+    return "hosvd", ttb.hosvd, (X, 0.1), {"verbosity": 0, "ranks": r}, X, {}
+
+
+@row("tensor.to_tenmat:unknown-cyclic-option", (3,))
+def _(e):
+    X = e.tensor()
+    return "tensor.to_tenmat", X.to_tenmat, (np.array([0]),), {"cdims_cyclic": "xx"}, X, {}
+
+
+@row("ktensor.update:invalid-mode-after-a-valid-one", (2, 3))
+def _(e):
+    X = e.ktensor(R=2)
+    data = gen.normals(e.rng, (2 * e.shape[0] + 2 * 3,))
+    return "ktensor.update", X.update, ([0, e.N + 2], data), {}, X, {}
+
+
+@row("ktensor.fixsigns:reference-of-another-shape", (2, 3))
+def _(e):
+    X = e.ktensor(R=2)
+    shp, how = other_shape(e, "size")
+    return "ktensor.fixsigns", X.fixsigns, (with_shape(e, shp).ktensor(R=2),), {}, X, {"how": how}
+
+
+@row("ktensor.arrange:weight-factor-out-of-range", (2, 3))
+def _(e):
+    X = e.ktensor(R=2)
+    return "ktensor.arrange", X.arrange, (), {"weight_factor": e.N + 4}, X, {}
+
+
+@row("sptensor.__setitem__:subscript-array-of-another-order-with-wrong-value-count", (2, 3))
+def _(e):
+    X = e.sptensor()
+    subs = np.array([[0] * e.N + [1]])
+    return "sptensor.__setitem__", X.__setitem__, (subs, np.array([[1.0], [2.0]])), {}, X, {}
+
+
+@row("sptensor.__setitem__:region-past-the-extent-with-unsupported-value", (2, 3))
+def _(e):
+    X = e.sptensor()
+    key = tuple(slice(0, s_ + 2) for s_ in e.shape)
+    return "sptensor.__setitem__", X.__setitem__, (key, "x"), {}, X, {}
+
+
+@row("tensor.__setitem__:region-past-the-extent-with-wrong-size-value", (2, 3))
+def _(e):
+    X = e.tensor()
+    key = tuple(slice(0, s_ + 1) for s_ in e.shape)
+    return "tensor.__setitem__", X.__setitem__, (key, np.ones(tuple(s_ + 3 for s_ in e.shape))), {}, X, {}
+
+
 def _order_rows():
     # every way a mode order can fail to be a permutation of the modes, for every algorithm that takes one, as list and as array
     kinds = {
